@@ -101,18 +101,20 @@ def flatten(lrecs):
     the manager's configuration (task capacity per machine, parallelism limit, as logged by the manager itself in
     MgrStart) and the requests it was offered, then the manager's hook events in the order they were emitted."""
     out = []
+    hdr = {'ev': 'Header', 'reqs': [], 's': 0, 'seq': 0}
     for r in lrecs:
         evs = [e for e in r['events'] if e['ev'].startswith('Mgr')]
         st = [e for e in evs if e['ev'] == 'MgrStart']
         if not st:
             continue
         reqs = [[e['rid'], e['prio'], e['procs']] for e in evs if e['ev'] == 'MgrOffer']
-        out.append({'ev': 'Begin', 's': r['id'], 'cap': st[0]['machprocs'], 'maxp': st[0]['maxp'], 'reqs': reqs, 'seq': 0})
+        hdr['reqs'] += [[r['id']] + q for q in reqs]
+        out.append({'ev': 'Begin', 's': r['id'], 'cap': st[0]['machprocs'], 'maxp': st[0]['maxp'], 'seq': 0})
         for e in evs:
             e = dict(e)
             e['s'] = r['id']
             out.append(e)
-    return out
+    return [hdr] + out
 
 
 def conformance_one(chk, wdir, tag, recs):
@@ -130,12 +132,13 @@ def conformance_one(chk, wdir, tag, recs):
 
 def drift_check(chk, wdir, lrecs):
     """Conformance of the recorded manager sessions to Cluster.tla (ClusterTrace.tla): DRIFT lines, never a violation."""
-    left = flatten(lrecs)
+    flat = flatten(lrecs)
+    hdr, left = flat[0], flat[1:]
     nrec, drift, accepted = len(left), [], 0
     for attempt in range(6):
         if not left:
             break
-        conf, r = conformance_one(chk, wdir, 'conf%d' % attempt, left)
+        conf, r = conformance_one(chk, wdir, 'conf%d' % attempt, [hdr] + left)
         if conf is None:
             chk.cov['drift'] = -1
             print('DRIFT property=C14 ClusterTrace did not complete: %s' % (r.error or r.out[-300:]))
@@ -143,7 +146,7 @@ def drift_check(chk, wdir, lrecs):
         if conf['reached'] >= conf['n']:
             accepted = len({x['s'] for x in left})
             break
-        stuck = left[min(conf['reached'], len(left) - 1)]
+        stuck = left[min(max(conf['reached'] - 1, 0), len(left) - 1)]
         cfg = next(x for x in left if x['s'] == stuck['s'] and x['ev'] == 'Begin')
         drift.append({'session': stuck['s'], 'seq': stuck['seq'], 'ev': stuck['ev']})
         print('DRIFT property=C14 manager session %s (capacity %d, maxp %d) is not a behaviour of Cluster.tla at event seq %s (%s)'
@@ -165,9 +168,9 @@ def drift_check(chk, wdir, lrecs):
                 continue
             cut = [dict(x) for x in left[:k + 120]]
             mut(cut[k])
-            conf2, _ = conformance_one(chk, wdir, 'self_' + evk, cut)
+            conf2, _ = conformance_one(chk, wdir, 'self_' + evk, [hdr] + cut)
             ok2 = conf2 is not None and conf2['reached'] < conf2['n']
-            res.append({'corruption': name, 'corrupted_record': k + 1, 'rejected_at': conf2 and conf2['reached'] + 1, 'ok': ok2})
+            res.append({'corruption': name, 'corrupted_record': k + 2, 'rejected_at': conf2 and conf2['reached'] + 1, 'ok': ok2})
             if not ok2:
                 raise Inconclusive('conformance self-test failed: a corrupted manager trace (%s) was accepted by ClusterTrace.tla' % name)
         chk.cov['conformance_selftest'] = res
